@@ -76,6 +76,11 @@ class Aggregator:
       self.counts[k] += v
     if res.get('sample') is not None and len(self.samples) < 3:
       self.samples.append(res['sample'])
+    for fid, (n, ex) in (res.get('kf') or {}).items():
+      self.kf_hits[fid] += n
+      if fid not in self.kf_examples:
+        self.kf_examples[fid] = {'case': case, 'sub': ex.get('sub'),
+                                 'detail': ex.get('detail')}
     for f in res.get('fails', ()):
       self.add_failure(case, f)
 
